@@ -40,15 +40,16 @@ Print Assumptions C06_sig_sound.
 
 (** every mutation is rejected: two accepted requests that carry the same tag have the same covered
     tuple; so a request obtained from an accepted one by changing a covered part while keeping the
-    tag is not accepted *)
+    tag is not accepted.  [req_wf]: method, Host and header values contain no line feed (guaranteed by
+    the HTTP parser); for presigned URLs the SignedHeaders query value must not contain one either *)
 Theorem C06_sig_mutation_rejected : forall o c r1 r2 now1 now2 p1 p2,
   oracle_ideal o -> s_keys c <> [] -> req_wf r1 -> req_wf r2 ->
   init_from_request o (s_lit c) r1 = Some p1 -> init_from_request o (s_lit c) r2 = Some p2 ->
-  nonl (p_signed p1) -> nonl (p_signed p2) ->
+  (p_presign p1 = true -> nonl (p_signed p1)) -> (p_presign p2 = true -> nonl (p_signed p2)) ->
   sig_ok ideal o c r1 now1 = true -> sig_ok ideal o c r2 now2 = true ->
   p_tag p1 = p_tag p2 ->
   covered_of ideal o c p1 r1 = covered_of ideal o c p2 r2.
-Proof. exact sig_same_tag_same_covered. Qed.
+Proof. exact sig_mutation_rejected. Qed.
 Print Assumptions C06_sig_mutation_rejected.
 
 (** ... and equal covered tuples mean: same method, same escaped path, same sorted query, same signed
